@@ -33,6 +33,7 @@ type nsFrame struct {
 
 type nsNet struct {
 	mu     sync.Mutex // guards q, done, sent (sinks are written by agent goroutines too)
+	dirty  bool       // a delivery got stuck inside the code under test: rebuild the world
 	n      int
 	agents []*Agent
 	ids    []identity.AgentID
